@@ -203,6 +203,14 @@ class Verdict:
         self.coverage = {}
         self.assumptions = []
         os.makedirs(os.path.join(OUT, pid), exist_ok=True)
+        # replay files of earlier runs of this check are stale: every run writes the ones it refers to
+        if not os.environ.get("VERIF_KEEP_OUT"):
+            for fn in os.listdir(os.path.join(OUT, pid)):
+                if fn.endswith(".txt"):
+                    try:
+                        os.remove(os.path.join(OUT, pid, fn))
+                    except OSError:
+                        pass
 
     def replay_path(self, name):
         d = os.path.join(OUT, self.pid)
